@@ -955,6 +955,21 @@ def C13(ctx):
             ctx.fail("converted graph does not hold the j-th successor (or -1) in column j", lmap=proto.enc_lmap(lm)[:300],
                      observed=o[:300])
         ctx.case("l2a " + proto.enc_lmap(lm), k >= 2, "converted")
+    # graphs converted by the library's own functions one after the other in one process (different orders, vertices
+    # that have arcs in one graph and none in the next): every result obeys the column law and keeps exactly the arcs
+    for it in range(ctx.n(40, 800)):
+        k = rng.choice([1, 2, 2, 3, 3])
+        g = rng.choice([gen.rand_arc_subset, gen.rand_profile_graph, lambda r, kk: gen.complete(kk)])(rng, k)
+        acc0 = np.array(g.rows(), dtype=int)
+        st, lm_real = proto.guarded(lambda: GZ.accessor_to_latter_map(acc0))
+        if st != "ok":
+            ctx.fail("accessor_to_latter_map raised", acc=g.token(), observed=str(lm_real))
+            continue
+        st, back = proto.guarded(lambda: GZ.latter_map_to_accessor(lm_real, k))
+        if st != "ok" or not np.array_equal(np.asarray(back), acc0):
+            ctx.fail("graph converted to a latter map and back does not hold the j-th successor (or -1) in column j",
+                     acc=g.token(), k=k, observed=str(back)[:300] if st == "ok" else str(back))
+        ctx.case("a2l-l2a " + g.token(), k >= 2, "converted-chain")
     # matrices: whenever the conversion accepts, column j holds -1 or the j-th successor and every 1 of
     # the matrix is an arc of the result (stray entries right next to the legal block of a row are the
     # ones a range test can let through)
@@ -1083,6 +1098,21 @@ def C14(ctx):
 
 # =============================================================================== C15 C16
 def rand_number(rng):
+    c = rng.random()
+    if c < 0.18:
+        # a carry / borrow chain INSIDE the number, of a length around machine-word chunk sizes, with any head and tail
+        m = rng.choice([1, 2, 7, 8, 9, 10, 17, 18, 19, 20, 27, 36, 40])
+        head = "".join(rng.choice("0123456789") for _ in range(rng.choice([0, 1, 2, 5, 12, 30]))).lstrip("0")
+        tail = rng.choice(["", "", rng.choice("0123456789"), rng.choice("0123456789") + rng.choice("0123456789")])
+        return (head + rng.choice("90") * m + tail).lstrip("0") or "0"
+    if c < 0.30:
+        # chunks whose product with a small digit lands exactly on a power of ten (5*10^8, 25*10^7, 2*10^17, ...)
+        w = rng.choice([9, 18, 4, 8])
+        part = rng.choice(["5" + "0" * (w - 1), "25" + "0" * (w - 2), "2" + "0" * (w - 1), "125" + "0" * (w - 3),
+                           "75" + "0" * (w - 2), "4" + "9" * (w - 1), "3" + "3" * (w - 1) + "4"])[:w].ljust(w, "0")
+        parts = [part if rng.random() < 0.6 else "".join(rng.choice("0123456789") for _ in range(w)) for _ in range(rng.choice([1, 2, 3]))]
+        head = "".join(rng.choice("123456789") for _ in range(rng.choice([0, 1, 3])))
+        return (head + "".join(parts)).lstrip("0") or "0"
     c = rng.random()
     n = rng.choice([1, 1, 2, 3, 5, 10, 30, 80, 300])
     if c < 0.2:
@@ -1410,6 +1440,17 @@ def C16(ctx):
         number_case(rng.randrange(2 ** W), W + rng.choice([0, 0, 1, 7]), 2)
         W = rng.choice([1, 3, 10, 32, 40])
         number_case(rng.randrange(4 ** W), W + rng.choice([0, 0, 1, 7]), 4)
+        # values whose binary / base-4 Horner prefixes pass through d * 10^9 / 2, d * 10^18 / 4, ... (word-chunk boundaries
+        # of a chunked big-number routine), reached through the conversion functions themselves
+        base = rng.choice([2, 4])
+        w = rng.choice([9, 18])
+        pre = (rng.randrange(1, 50) * 10 ** w + 10 ** w // base * rng.randrange(1, base)) * base ** rng.choice([1, 1, 2, 5]) + rng.randrange(base)
+        L0 = pre.bit_length() if base == 2 else (pre.bit_length() + 1) // 2
+        number_case(pre, L0 + rng.choice([0, 0, 3]), base)
+        if base == 2:
+            bits_case(oracle.bits_be(pre, L0))
+        else:
+            dna_case(gen.kmer(pre, L0))
     if ctx.part == 0:
         # string-typed path beyond CPython's 4300-digit int<->str limit (value 4^7150 - 1 has 4305 digits)
         W = 7150
@@ -1585,6 +1626,23 @@ def C18(ctx):
                 if dd != "ok " + bits_token(bits):
                     ctx.fail("decode does not invert the digit map", line=key, observed=dd)
                 ctx.case(key, list(row) != [0, 1, 2, 3] and 2 <= len(live) <= 3, "live=%d" % len(live))
+        # fast mode, a single bit left at a 4-way vertex (the odd-length padding): the padded digit 2*b goes through
+        # the table like every other digit
+        g4 = gen.Graph(2, [15] * 16)
+        tbl4 = [[0, 1, 2, 3], list(row)] + [[0, 1, 2, 3]] * 14
+        for b_ in (0, 1):
+            key = "enc %s %s 1 %d 1 0" % (g4.token(), tbl_token(tbl4), b_)
+            r = parse_ok(ctx.corr(key))
+            if r is None or len(proto.undash(r[0])) != 1:
+                ctx.fail("fast mode: a lone last bit at a 4-way vertex is not one padded step", line=key, observed=str(r))
+                continue
+            exp = sorted(range(4), key=lambda j: row[j])[2 * b_]
+            if NUC.index(r[0][0]) != exp:
+                ctx.fail("fast mode: the padded last digit does not go through the table", line=key, strand=r[0], expected=NUC[exp])
+            dd = ctx.corr("dec %s %s 1 %s 1 1 None" % (g4.token(), tbl_token(tbl4), r[0]))
+            if dd != "ok %d" % b_:
+                ctx.fail("fast mode: decode does not invert the padded last digit", line=key, observed=dd)
+            ctx.case(key, list(row) != [0, 1, 2, 3], "fast-lone-bit")
     # table shape / permutation rows / reproducibility / no side effects
     import copy
     for it in range(ctx.n(40, 600)):
@@ -1621,8 +1679,9 @@ def C19(ctx):
     for it in range(ctx.n(40, 800)):
         k = rng.choice([2, 2, 3] if not ctx.thorough else [2, 3, 3, 4])
         g, t = gen.rand_coding_graph(rng, k, t=rng.choice([1, 2, 2]))
-        if rng.random() < 0.2:
-            g = gen.rand_arc_subset(rng, k, 0.5)
+        if rng.random() < 0.45:
+            # arbitrary arc subsets: arcs into dead-end vertices, vertices without arcs (what a removal history produces late)
+            g = gen.rand_arc_subset(rng, k, rng.choice([0.35, 0.5, 0.7]))
         ins, dele = rng.randrange(2), rng.randrange(2)
         if rng.random() < 0.12:
             # only out-degrees 0/1 and both flags off: every score is 0 (the call raises after updating)
@@ -1631,7 +1690,7 @@ def C19(ctx):
         acc = np.array(g.rows(), dtype=int)
         lm = {u: [succ(u, j, k) for j in g.live(u)] for u in g.vertices()}
         steps = 0
-        maxsteps = rng.choice([1, 3, 10, 60 if ctx.thorough else 12])
+        maxsteps = rng.choice([1, 3, 10, 60 if ctx.thorough else (25 if k == 2 else 12)])
         if k >= 4:
             maxsteps = min(maxsteps, 4)      # scoring an order-4 graph is slow in the real code
         while steps < maxsteps:
@@ -1662,6 +1721,13 @@ def C19(ctx):
                 mx = max(max(r_) for r_ in scores)
                 if scores[u][j] != mx:
                     ctx.fail("removed arc does not have the maximum intersection score", line=key, score=scores[u][j], maximum=mx)
+                # the same against a reference scorer written from the description, not from the library's code
+                lm_before = proto.dec_lmap(l_tok)
+                ref = oracle.intersection_scores(lm_before, k, bool(ins), bool(dele))
+                rmx = max(ref.values()) if ref else 0
+                if ref.get((u, j), 0) != rmx:
+                    ctx.fail("removed arc does not have the maximum intersection score (reference scorer)", line=key,
+                             score=ref.get((u, j), 0), maximum=rmx)
             lm_chk = GZ.accessor_to_latter_map(acc2)
             if {int(a): [int(x) for x in b] for a, b in lm_chk.items()} != {int(a): [int(x) for x in b] for a, b in lm2.items()}:
                 ctx.fail("accessor and latter map describe different graphs after the call", line=key)
